@@ -173,21 +173,37 @@ Fixpoint diff_gaps (fuel : nat) (start : N) (indices : list N) (n : N) : N :=
 Definition diff_proof_size (acts : list action) (numLeaves : N) : N :=
   let idx := sectors_changed acts numLeaves in N.of_nat (length idx) + diff_gaps FUEL 0 idx numLeaves.
 
+(* VerifyDiffProof's insertRange: a range that needs a tree hash when none is left marks the proof short (the Go loop
+   returns at once and the verdict is false); out of fuel is treated the same way and excluded by a lemma *)
+Fixpoint insert_range_s (fuel : nat) (acc : pacc) (proof : list hash) (i j : N) : pacc * list hash * bool :=
+  if i <? j then
+    match fuel with
+    | O => (acc, proof, true)
+    | S f =>
+      match proof with
+      | [] => (acc, [], true)
+      | p :: rest => let s := next_subtree_size i j in insert_range_s f (insert_node p (N.to_nat (tz64 s)) acc) rest (i + s) j
+      end
+    end
+  else (acc, proof, false).
 Fixpoint verify_multi_aux (fuel : nat) (acc : pacc) (th : list hash) (start : N) (idx : list N) (lh : list hash) (numLeaves : N)
-  : option (pacc * list hash) :=
+  : option (pacc * list hash * bool) :=
   match idx with
-  | [] => Some (insert_range fuel acc th start numLeaves)
+  | [] => Some (insert_range_s fuel acc th start numLeaves)
   | e :: r =>
     match lh with
     | [] => None                                   (* leafHashes[i] out of range: Go panics *)
     | l :: lrest =>
-      let '(acc, th) := insert_range fuel acc th start e in
-      verify_multi_aux fuel (insert_node l 0 acc) th (e + 1) r lrest numLeaves
+      let '(acc, th, s1) := insert_range_s fuel acc th start e in
+      match verify_multi_aux fuel (insert_node l 0 acc) th (e + 1) r lrest numLeaves with
+      | Some (a, t, s2) => Some (a, t, s1 || s2)
+      | None => None
+      end
     end
   end.
 Definition verify_multi (idx : list N) (th lh : list hash) (numLeaves : N) (root : hash) : option bool :=
   match verify_multi_aux FUEL [] th 0 idx lh numLeaves with
-  | Some (acc, th') => Some (hash_eqb (pa_root acc) root && (length th' =? 0)%nat)
+  | Some (acc, th', short) => Some (negb short && hash_eqb (pa_root acc) root && (length th' =? 0)%nat)
   | None => None
   end.
 
